@@ -133,6 +133,7 @@ def main(argv=None):
     prop = argv[0]
     tier = os.environ.get("VERIF_TIER", "quick")
     replay_file = None
+    only = None
     i = 1
     while i < len(argv):
         if argv[i] == "--tier":
@@ -140,6 +141,9 @@ def main(argv=None):
             i += 2
         elif argv[i] == "--replay":
             replay_file = argv[i + 1]
+            i += 2
+        elif argv[i] == "--only":  # debugging aid: run a subset of the obligations (no ledger check, no evidence)
+            only = argv[i + 1].split(",")
             i += 2
         else:
             i += 1
@@ -159,6 +163,12 @@ def main(argv=None):
         traceback.print_exc()
         print(f"CHECKER-ERROR property={prop} building obligations failed")
         return 3
+    if only:
+        obligs = [o for o in obligs if any(o.id.startswith(x) for x in only)]
+        run_obligations(obligs, procs=1 if len(obligs) == 1 else None)
+        for o in obligs:
+            print(o.id, o.verdict.status, o.verdict.backend, f"{o.verdict.seconds:.1f}s", (o.verdict.detail or "")[:600], o.verdict.witness)
+        return 0
     # ---- ledger (vacuity guard): the set of obligation ids is fixed per property
     ledger_path = os.path.join(ROOT, "baseline", "obligations.json")
     ledger = json.load(open(ledger_path)) if os.path.exists(ledger_path) else {}
